@@ -1,7 +1,6 @@
 SPECIFICATION Spec
-CONSTANTS Clients = {1, 2} Studies = {1, 2} MaxTrials = 3 FixCreate = TRUE PointReadCaches = FALSE
+CONSTANTS Clients = {1, 2} Studies = {1} MaxTrials = 3 FixCreate = TRUE PointReadCaches = TRUE
 INVARIANT ViewEqualsBackend
 INVARIANT FinishedNeverStale
 INVARIANT UnfIsUnfinishedInCache
-INVARIANT WatermarkSound
 CHECK_DEADLOCK FALSE
